@@ -12,8 +12,13 @@ RULE = ('case = (device profile, operation, argument record). Operations: the 19
         'attributes, mixed text) and passed as str and as lxml elements; enumerated arguments inside and outside their sets; a '
         'separate invalid stream (NUL, C0 controls, U+FFFE/FFFF, lone surrogates, non-strings, bad names, ill-formed or wrongly '
         'rooted documents). Escaping: single text/attribute values compared byte-exactly with lxml. distinct = distinct case; '
-        'non-trivial = at least one caller string or fragment is carried.')
-ASSUMES = ['the server advertises every capability (gating is C09); with-defaults lists the four RFC 6243 modes',
+        'non-trivial = at least one caller string or fragment is carried. Vendor block (tools/harness/vendorops.py): case = (profile that ships the '
+        'class, vendor Manager method, argument record) for the 30 classes of third_party/*/rpc.py; the unit tests\' and examples\' own calls and '
+        'every switch corner as fixed cases, then generated records: the same string grammar for command/config/file/comment text and for '
+        'format/action/rollback attributes, config as str / list of str / lxml element, caller documents as str and element (un-namespaced, default, '
+        'prefixed), junos timeouts as int and as str (incl. non-numbers), plus an invalid stream (NUL/C0/U+FFFE/FFFF/surrogates in one string argument).')
+ASSUMES = ['vendor classes: Python verdicts int(timeout) (junos commit) and bool(comment.strip()) (sros commit) are inputs of the model; caller fragments of vendor calls do not use the base namespace (that class is the open finding envelope_namespace_binding_shadowed, one explicit huawei case); junos timeouts within +-10^12 (binary64 division is exact there)',
+           'the server advertises every capability (gating is C09); with-defaults lists the four RFC 6243 modes',
            'lxml verdicts on element names are oracle inputs (catalogue); documents are parsed for the model by the independent reader',
            'namespace declarations (prefix bindings) are not part of the compared tree: an XPath filter with its own nsmap is compared on the select string only']
 TRUSTED = ['modelled, not verified: libxml2 serialiser/parser beyond the escaping function, expat (independent reader)']
@@ -759,18 +764,36 @@ def enum_with_defaults(ctx):
                                  % (val, wd_uri, r['exc'], len(r['sent'])), sig=None, expected='rejected locally, nothing sent',
                                  actual=[r['exc'], len(r['sent'])])
 
+# ---------------- vendor operation classes (third_party/*/rpc.py): tools/harness/vendorops.py ----------------
+def vendor_cases(ctx):
+    """every modelled vendor class x the profile that ships it: model (VendorBuilders.v, runner fn 6) vs captured request read by
+    the independent reader, and the vendor-schema + path-assertion oracle"""
+    from harness import vendorops
+    vendorops.run(ctx)
+
 def run(ctx):
     from vlib import paths
+    from harness import vendorops
     enum_with_defaults(ctx)
     for f in sorted(glob.glob(os.path.join(paths.CORPUS, 'C07', '*.json'))):
-        run_cases(ctx, [json.load(open(f))['case']])
+        c = json.load(open(f))['case']
+        if 'vop' in c: vendorops.run_vendor_cases(ctx, [c])
+        else: run_cases(ctx, [c])
+    vendor_cases(ctx)
     escape_micro(ctx, ctx.rng, 300 if ctx.tier == 'quick' else 5000)
     run_cases(ctx, shadow_cases())
     run_cases(ctx, gen_cases(ctx.rng, ctx.tier))
 
 def search(ctx, seeds):
-    tries = list(seeds) + gen_cases(ctx.rng, 'quick')
+    from harness import vendorops
+    from vlib import findings
+    tries = list(seeds) + vendorops.gen_vendor_cases(ctx.rng, 'quick') + gen_cases(ctx.rng, 'quick')
     for case in tries:
+        if 'vop' in case:
+            try: r, j = vendorops.judge(case)
+            except Exception: continue
+            if j and not findings.covered(ID, j[1]): return dict(case=json.loads(key_of(case)), what=j[0], sig=j[1], expected='vendor schema instance / local rejection', actual={'exc': r['exc'], 'sent': [x[:400] for x in r['sent']]})
+            continue
         if 'op' not in case: continue
         try:
             r = impl_run(case)
@@ -782,6 +805,9 @@ def search(ctx, seeds):
 
 def reproduce(finding):
     case = finding['witness']
+    if 'vop' in case:
+        from harness import vendorops
+        return vendorops.judge(case)[1] is not None
     r = impl_run(case)
     return oracle(case, r, case['profile'] in DEFAULT_NS_PROFILES, case['profile'] == 'iosxe') is not None
 
@@ -798,6 +824,14 @@ def replay(doc):
     if doc.get('case', {}).get('check') == 'enum_with_defaults':
         return _replay_enum(doc['case'])
     case = doc['case']
+    if 'vop' in case:
+        from harness import vendorops
+        r, j = vendorops.judge(case)
+        print('case     :', case)
+        print('expected : instance of the vendor schema carrying the caller data, or local rejection:', vendorops.expected_rejection(case))
+        print('actual   :', {'exc': r['exc'], 'sent': [x[:600] for x in r['sent']]})
+        if j: print('verdict  :', j)
+        return j is None
     if 'op' not in case:
         print('case is a micro-check of the escaping model:', case); return True
     r = impl_run(case)
